@@ -11,7 +11,7 @@ class _RL(dict):
 UNIT_RLIMIT = _RL({"div_small": 80, "mul_redc": 80})      # unit -> --rlimit (Verus default is 10; 5x head-room over the measured maximum)
 UNIT_TIMEOUT = {"knuth": 1500, "addmul": 900, "mul_redc": 1200}     # unit -> seconds
 UNIT_EXPECT = {       # unit -> minimum number of verified functions on the unchanged tree (vacuity guard)
-    "core": 31, "add": 29, "kernels": 79, "addmul": 71, "addmul_n": 73, "mul": 51, "divd": 45, "div_small": 235, "knuth": 145, "mul_redc": 126, "basics": 22, "pow": 38, "divw": 54, "modular": 70, "spigot": 44, "gcd": 24, "forward": 57, "invring": 47, "bitlen": 81, "shifts": 131, "recip_table": 2, "gcdext": 67, "gcdw": 36, "bits": 78, "conv": 53, "lehmer": 38, "jebelean": 92, "logs": 27, "forward_shift": 81, "fmt_consts": 5, "rotate": 27, "popcount": 29, "conv_slice": 54, "conv_prim": 53, "absdiff": 15, "frombase": 71, "byteslice": 72, "padlimbs": 45, "addnx1": 37, "sumprod": 26, "trailing": 55, "cmpord": 39,
+    "core": 31, "add": 29, "kernels": 79, "addmul": 71, "addmul_n": 73, "mul": 51, "divd": 45, "div_small": 235, "knuth": 145, "mul_redc": 126, "basics": 22, "pow": 38, "divw": 54, "modular": 70, "spigot": 44, "gcd": 24, "forward": 57, "invring": 47, "bitlen": 81, "shifts": 131, "recip_table": 2, "gcdext": 67, "gcdw": 36, "bits": 78, "conv": 53, "lehmer": 38, "jebelean": 92, "logs": 27, "forward_shift": 81, "fmt_consts": 5, "rotate": 27, "popcount": 29, "conv_slice": 54, "conv_prim": 53, "absdiff": 15, "frombase": 71, "byteslice": 72, "padlimbs": 45, "addnx1": 37, "sumprod": 26, "trailing": 55, "cmpord": 39, "convgen": 20,
 }
 
 COMMON_TRUST = [
@@ -185,14 +185,14 @@ PROPS = {
                    "for ALL pairs of widths (UintTryFrom<Uint>, UintTryTo<Uint>, from_uint, checked_from_uint). Kani proves, per width and for ALL values of the source type / all canonical Uint values, the exact Ok/Err classification, "
                    "the payloads, and the wrapping/saturating forms of every conversion entry point incl. the generic from / to families (13 primitive types in both directions, Uint-to-Uint for 9 width pairs, limb slices of every length 0..LIMBS+2)",
         level_note="all-widths proof for every primitive integer type in both directions (incl. TryFrom<&Uint> for bool and for i128: Ok iff the value is < 2 resp. < 2^127, else Overflow(BITS, low bit / two's-complement low 128 bits, MAX)), the limb-slice constructors and Uint-to-Uint; "
-                   "the generic entry points from / wrapping_from / saturating_from / to / wrapping_to / saturating_to dispatch through the UintTryFrom / UintTryTo traits on a type parameter and are Kani per width (10 widths); "
+                   "the generic entry points from / wrapping_from / saturating_from / to / wrapping_to / saturating_to are proved in unit convgen for EVERY type parameter T relative to the contract of the trait method they dispatch to (ghost additions to the extracted UintTryFrom / UintTryTo traits: a spec function naming the implementor's outcome and the postcondition r == outcome; from / to require the outcome to be Ok - the panic arm is an obligation); the two blanket impls `Self::try_from(value)` / `T::try_from(self)` (one-line forwards through core's TryFrom) are not in the Verus subset and stay Kani per width (10 widths), as does the tie between an implementor's outcome and the TryFrom impls proved in units conv / conv_prim; "
                    "ASSUMED in unit conv_prim: iN::is_negative (Kani core_specs, full domain); declared rewrites there: callee named by its impl, `#[verifier::truncate]` added to the truncating `as` casts (Rust's semantics of `as`), the two associated consts of to_int! inlined; "
                    "ASSUMED in unit conv_slice: std's copy_from_slice / split_at / Iterator::any through N14 wrappers (Kani core_specs, lengths <= 6); "
                    "declared rewrites in TryFrom<u128>: Self::try_from(value as u64) is named by its impl, `.and_then(|n| Err(..))` is replaced by its definition (closures over Result are outside the Verus subset); "
                    "limb slices longer than LIMBS+2 not covered; "
                    "should_panic harnesses prove that the panic is reachable and nothing else fails (plus an unreachable end-of-harness cover), not a universally quantified 'always panics'",
         technique="deductive contracts (Verus, all widths) on the integer, limb-slice and Uint-to-Uint conversions; Kani contract harnesses (pre/postconditions on the compiled crate), complete per width, for every entry point incl. the generic from/to families; native replay of counterexamples",
-        units=["core", "basics", "bitlen", "bits", "conv", "conv_slice", "conv_prim"],
+        units=["core", "basics", "bitlen", "bits", "conv", "conv_slice", "conv_prim", "convgen"],
         kani=dict(
             features=None,
             quick=hs("c07", r"_w(0|1|60|64|65|128)$|_uint_|_must_panic$") + hs("core_specs", r"slice_ctor|is_negative"),
